@@ -17,6 +17,9 @@ def fang (j : Json) : Except String Fang := do
   | "plain" => pure .plain
   | "jwt" => pure .jwt
   | "basic" | "basic2" => pure .basic          -- `[BasicAuth; N]` documents itself as `BasicAuth` does
+  | "key_header" => pure (.key "keyHeader".toList)
+  | "key_query" => pure (.key "keyQuery".toList)
+  | "key_cookie" => pure (.key "keyCookie".toList)
   | "tag" => pure (.tag ("t" ++ toString ((j.getObjValD "id").getNat?.toOption.getD 0)).toList)
   | k => throw s!"fang kind {k}"
 
